@@ -4,5 +4,5 @@ From FB Require Import Sem.Base Sem.ReadBuf Model.Fb Model.Tokio GenEq.Tac.
 From FB Require Gen.TokioAdaptersGen.
 Open Scope Z_scope.
 
-Lemma gen_eq : forall RWS chk (R2 : AsyncReader RWS) buf w, TokioAdaptersGen.atake_poll_read chk R2 buf w = Tokio.atake_poll_read chk R2 buf w.
+Lemma gen_eq : forall RWS chk (R2 : AsyncReader RWS) buf w, rb_wf buf -> TokioAdaptersGen.atake_poll_read chk R2 buf w = Tokio.atake_poll_read chk R2 buf w.
 Proof. gen_eq. Qed.
